@@ -7,6 +7,7 @@
 mod faults;
 mod hiers;
 mod oracle;
+mod server;
 
 use std::collections::{BTreeMap, BTreeSet, HashMap};
 use std::sync::{Arc, Mutex};
@@ -59,6 +60,35 @@ fn scene(t: &Target, faults: &[Fault]) -> String {
         .collect();
     v.sort();
     v.join(" + ")
+}
+
+/// the scene of a server-level finding: as `scene`, without the type of the edited record
+fn server_scene(t: &Target, faults: &[Fault]) -> String {
+    let s = scene(t, faults);
+    let mut out = String::new();
+    let mut depth = 0;
+    let mut skip = false;
+    for (i, ch) in s.char_indices() {
+        // drop "(TYPE)" after drop-record / change-owner / change-rdata / strip-rrsigs
+        if ch == '(' && (s[..i].ends_with("drop-record") || s[..i].ends_with("change-owner") || s[..i].ends_with("change-rdata") || s[..i].ends_with("strip-rrsigs")) {
+            skip = true;
+            depth = 1;
+            continue;
+        }
+        if skip {
+            if ch == '(' {
+                depth += 1;
+            } else if ch == ')' {
+                depth -= 1;
+                if depth == 0 {
+                    skip = false;
+                }
+            }
+            continue;
+        }
+        out.push(ch);
+    }
+    out
 }
 
 fn case_json(t: &Target, faults: &[Fault], out: &Outcome) -> Value {
@@ -119,7 +149,10 @@ fn exec(t: &Target, faults: &[Fault], rt: &tokio::runtime::Runtime, l: &mut Loca
         }
         l.violation(&key, &f.what, || case_json(t, faults, &run.outcome));
     }
-    (run.log, clauses)
+    // a panic aborts the validation at a point that depends on hickory's HashMap iteration
+    // order: the upstream queries seen up to there are not used for the position closure
+    let log = if matches!(run.outcome, Outcome::Panic(..)) { vec![] } else { run.log };
+    (log, clauses)
 }
 
 fn load_honest(t: &Target, k: &Key, rt: &tokio::runtime::Runtime) -> Message {
@@ -141,6 +174,18 @@ fn main() {
         let mut t = Target { hier, q, honest_answer: Message::query(), positions: vec![], singles: vec![] };
         let _ = honest;
         t.honest_answer = load_honest(&t, &key_of(&t.q.0, t.q.1), &rt);
+        if case["server"].as_bool() == Some(true) {
+            let c = server::Client { cd: case["client"]["cd"].as_bool().unwrap_or(false), dnssec_ok: case["client"]["do"].as_bool().unwrap_or(true), ad: case["client"]["ad"].as_bool().unwrap_or(false) };
+            let out = server::run_server_case(&t.hier, &t.q, &faults, c, &rt);
+            let (findings, class) = server::judge_server(&t.hier, &t.q, &t.honest_answer, c, &out);
+            eprintln!("replayed server case: {class} {out:?}");
+            ctx.with_local(|l| {
+                for x in findings {
+                    l.violation(&format!("{}|{}", x.clause, server_scene(&t, &faults)), &x.what, || case.clone());
+                }
+            });
+            ctx.finish(false);
+        }
         ctx.with_local(|l| {
             let (_, clauses) = exec(&t, &faults, &rt, l, None);
             eprintln!("replayed: clauses {clauses:?}");
@@ -202,6 +247,7 @@ fn main() {
     ctx.set("hierarchies", json!(hier_names));
     ctx.set("targets", json!(targets.len()));
 
+    let nondet = std::sync::atomic::AtomicBool::new(false);
     // ---- C: closure over single faults
     // single fault -> the (first, in key order) violation key it produces on its own
     let mut single_viol: HashMap<Fault, String> = HashMap::new();
@@ -239,6 +285,24 @@ fn main() {
                 let (ti, f) = &work[i as usize];
                 let t = &tg[*ti];
                 let (log, clauses) = exec(t, std::slice::from_ref(f), rt, l, None);
+                // determinism self-test on a fixed slice: same case, same outcome
+                if i % 61 == 0 {
+                    let a = run_case(&t.hier, &t.q, std::slice::from_ref(f), rt);
+                    let b = run_case(&t.hier, &t.q, std::slice::from_ref(f), rt);
+                    if a.outcome != b.outcome {
+                        nondet.store(true, std::sync::atomic::Ordering::SeqCst);
+                        eprintln!("nondeterministic outcome: {} {:?} {:?}", t.hier.h.name, t.q, f);
+                    }
+                    l.outcome("determinism-self-test-cases");
+                }
+                if std::env::var("C07_DEBUG_DET").is_ok() {
+                    let again = run_case(&t.hier, &t.q, std::slice::from_ref(f), rt);
+                    let a: BTreeSet<_> = log.iter().cloned().collect();
+                    let b: BTreeSet<_> = again.log.iter().cloned().collect();
+                    if a != b && !matches!(again.outcome, Outcome::Panic(..)) {
+                        eprintln!("LOGDIFF {} {:?} {:?}\n   only-first {:?}\n   only-second {:?}", t.hier.h.name, t.q, f, a.difference(&b).collect::<Vec<_>>(), b.difference(&a).collect::<Vec<_>>());
+                    }
+                }
                 for k in log {
                     if !t.positions.iter().any(|(p, _)| *p == k) {
                         new_keys.lock().unwrap().push((*ti, k));
@@ -320,8 +384,88 @@ fn main() {
         },
     );
 
+    // ---- E: the server clause (Catalog + validating forwarder), honest + every single fault
+    let server_targets: Vec<usize> = targets
+        .iter()
+        .enumerate()
+        .filter(|(_, t)| {
+            let hn = t.hier.h.name.as_str();
+            let qi = t.hier.queries.iter().position(|q| *q == t.q).unwrap_or(99);
+            (hn == "signed-next-to-insecure" && [0usize, 1, 2, 8, 9, 10].contains(&qi)) || (thorough && (hn == "all-signed" || hn == "leaf-unsigned-nsec") && [0usize, 2].contains(&qi))
+        })
+        .map(|(i, _)| i)
+        .collect();
+    {
+        // honest: AD exactly when asked for and everything is secure
+        for ti in &server_targets {
+            let t = &targets[*ti];
+            for c in server::CLIENTS {
+                let out = server::run_server_case(&t.hier, &t.q, &[], c, &rt);
+                let (f, class) = server::judge_server(&t.hier, &t.q, &t.honest_answer, c, &out);
+                ctx.with_local(|l| l.outcome(&format!("honest:{class}")));
+                let st = t.hier.status(&t.q.0, t.q.1);
+                let ad = matches!(out, server::ServerOutcome::Response { ad: true, .. });
+                let servfail = matches!(out, server::ServerOutcome::Response { rcode: hickory_proto::op::ResponseCode::ServFail, .. });
+                if servfail || matches!(out, server::ServerOutcome::NoResponse | server::ServerOutcome::Panic(..)) {
+                    ctx.machinery_failure(&format!("server: honest {} {} {} gives {:?}", t.hier.h.name, t.q.0, t.q.1, out));
+                }
+                for x in f {
+                    ctx.with_local(|l| l.violation(&format!("{}|honest", x.clause), &x.what, || json!({"server": true, "hierarchy": t.hier.h.name, "query": {"name": t.q.0.to_ascii(), "type": u16::from(t.q.1)}, "faults": [], "client": format!("{c:?}"), "observed": format!("{out:?}")})));
+                }
+                let _ = (st, ad);
+            }
+        }
+    }
+    let mut swork: Vec<(usize, usize, usize)> = vec![];
+    for ti in &server_targets {
+        for fi in 0..targets[*ti].singles.len() {
+            for ci in 0..server::CLIENTS.len() {
+                // thorough: all six client variants; quick: CD=0/DO=1 and CD=1/DO=1
+                if thorough || ci == 1 || ci == 4 {
+                    swork.push((*ti, fi, ci));
+                }
+            }
+        }
+    }
+    ctx.set("server_cases", json!(swork.len()));
+    eprintln!("[C07] pairs done, {} server cases at {:.1}s", swork.len(), ctx.elapsed_s());
+    ctx.par_run_init(
+        swork.len() as u64,
+        8,
+        |_| vsim::rt(),
+        |i, l, rt| {
+            let (ti, fi, ci) = swork[i as usize];
+            let t = &tg[ti];
+            let f = &t.singles[fi];
+            if f.uses_ancestor_key() {
+                return;
+            }
+            let c = server::CLIENTS[ci];
+            let out = server::run_server_case(&t.hier, &t.q, std::slice::from_ref(f), c, rt);
+            l.eval();
+            let (findings, class) = server::judge_server(&t.hier, &t.q, &t.honest_answer, c, &out);
+            l.outcome(&class);
+            if findings.is_empty() {
+                return;
+            }
+            let cj = || json!({"server": true, "hierarchy": t.hier.h.name, "query": {"name": t.q.0.to_ascii(), "type": u16::from(t.q.1)}, "faults": [f.to_json()], "client": {"cd": c.cd, "do": c.dnssec_ok, "ad": c.ad}, "observed": format!("{out:?}")});
+            // a fault that already fools the validator (listed under its own key) is expected to
+            // show at the server too: counted under that key
+            if let Some(k) = sv.get(f) {
+                l.violation(k, "(server-level consequence of this validator-level violation)", cj);
+                return;
+            }
+            for x in findings {
+                l.violation(&format!("{}|{}", x.clause, server_scene(t, std::slice::from_ref(f))), &x.what, cj);
+            }
+        },
+    );
+
+    if nondet.load(std::sync::atomic::Ordering::SeqCst) {
+        ctx.machinery_failure("determinism self-test failed: a case gave two different outcomes");
+    }
     // ---- vacuity: the enumeration must have produced every outcome class
-    for c in ["error", "ok:secure", "ok:bogus"] {
+    for c in ["error", "ok:secure", "ok:bogus", "server:servfail", "server:data+AD", "server:data:cd"] {
         if ctx.outcome_count(c) == 0 {
             ctx.machinery_failure(&format!("vacuous: outcome class {c} never observed"));
         }
